@@ -1,1 +1,1126 @@
-//! (module owned by its property check; see HARNESS_GUIDE.md)
+//! Reference implementation of the ISO 32000 *standard security handler* (DESIGN Appendix B.3).
+//!
+//! Written from ISO 32000-1:2008 §7.6 and ISO 32000-2:2020 §7.6 (Algorithms 1, 1.A, 2, 2.A, 2.B, 3-13 and
+//! the crypt-filter rules of §7.6.6). It shares no code with lopdf: lopdf's `Object` / `Dictionary`
+//! types are used as a *data container* only, no lopdf function that hashes, derives keys, encrypts or
+//! decrypts is called. Primitives: MD5 (md-5), SHA-2 (sha2), the raw AES block function (aes) - CBC/ECB
+//! chaining and PKCS#5 padding are done here; RC4 is implemented here and checked against RFC 6229.
+//! `stringprep` supplies SASLprep (trusted primitive).
+use aes::cipher::generic_array::GenericArray;
+use aes::cipher::{BlockDecrypt, BlockEncrypt, KeyInit};
+use lopdf::{Dictionary, Object, ObjectId};
+use md5::{Digest, Md5};
+use sha2::{Sha256, Sha384, Sha512};
+use std::collections::BTreeMap;
+
+// ---------------------------------------------------------------------------------------------
+// primitives
+
+/// The 32-byte padding string of Algorithm 2 step (a).
+pub const PAD: [u8; 32] = [
+    0x28, 0xBF, 0x4E, 0x5E, 0x4E, 0x75, 0x8A, 0x41, 0x64, 0x00, 0x4E, 0x56, 0xFF, 0xFA, 0x01, 0x08, 0x2E, 0x2E,
+    0x00, 0xB6, 0xD0, 0x68, 0x3E, 0x80, 0x2F, 0x0C, 0xA9, 0xFE, 0x64, 0x53, 0x69, 0x7A,
+];
+
+/// RC4 (key scheduling + output generation), symmetric.
+pub fn rc4(key: &[u8], data: &[u8]) -> Vec<u8> {
+    assert!(!key.is_empty() && key.len() <= 256, "RC4 key length");
+    let mut s = [0u8; 256];
+    for (i, v) in s.iter_mut().enumerate() {
+        *v = i as u8;
+    }
+    let mut j = 0usize;
+    for i in 0..256 {
+        j = (j + s[i] as usize + key[i % key.len()] as usize) & 0xff;
+        s.swap(i, j);
+    }
+    let mut i = 0usize;
+    let mut j = 0usize;
+    let mut out = Vec::with_capacity(data.len());
+    for &b in data {
+        i = (i + 1) & 0xff;
+        j = (j + s[i] as usize) & 0xff;
+        s.swap(i, j);
+        out.push(b ^ s[(s[i] as usize + s[j] as usize) & 0xff]);
+    }
+    out
+}
+
+pub fn md5(parts: &[&[u8]]) -> [u8; 16] {
+    let mut h = Md5::new();
+    for p in parts {
+        h.update(p);
+    }
+    h.finalize().into()
+}
+
+fn sha256(parts: &[&[u8]]) -> Vec<u8> {
+    let mut h = Sha256::new();
+    for p in parts {
+        h.update(p);
+    }
+    h.finalize().to_vec()
+}
+
+enum AesKey {
+    K128(aes::Aes128),
+    K256(aes::Aes256),
+}
+
+impl AesKey {
+    fn new(key: &[u8]) -> Result<AesKey, String> {
+        match key.len() {
+            16 => Ok(AesKey::K128(aes::Aes128::new(GenericArray::from_slice(key)))),
+            32 => Ok(AesKey::K256(aes::Aes256::new(GenericArray::from_slice(key)))),
+            n => Err(format!("AES key of {} bytes", n)),
+        }
+    }
+    fn enc(&self, block: &mut [u8; 16]) {
+        let mut b = GenericArray::clone_from_slice(block);
+        match self {
+            AesKey::K128(c) => c.encrypt_block(&mut b),
+            AesKey::K256(c) => c.encrypt_block(&mut b),
+        }
+        block.copy_from_slice(&b);
+    }
+    fn dec(&self, block: &mut [u8; 16]) {
+        let mut b = GenericArray::clone_from_slice(block);
+        match self {
+            AesKey::K128(c) => c.decrypt_block(&mut b),
+            AesKey::K256(c) => c.decrypt_block(&mut b),
+        }
+        block.copy_from_slice(&b);
+    }
+}
+
+/// AES-CBC without padding; `data.len()` must be a multiple of 16.
+pub fn aes_cbc_encrypt_nopad(key: &[u8], iv: &[u8; 16], data: &[u8]) -> Result<Vec<u8>, String> {
+    if data.len() % 16 != 0 {
+        return Err("CBC input not a multiple of 16".into());
+    }
+    let k = AesKey::new(key)?;
+    let mut prev = *iv;
+    let mut out = Vec::with_capacity(data.len());
+    for chunk in data.chunks(16) {
+        let mut b = [0u8; 16];
+        for i in 0..16 {
+            b[i] = chunk[i] ^ prev[i];
+        }
+        k.enc(&mut b);
+        out.extend_from_slice(&b);
+        prev = b;
+    }
+    Ok(out)
+}
+
+pub fn aes_cbc_decrypt_nopad(key: &[u8], iv: &[u8; 16], data: &[u8]) -> Result<Vec<u8>, String> {
+    if data.len() % 16 != 0 {
+        return Err("CBC input not a multiple of 16".into());
+    }
+    let k = AesKey::new(key)?;
+    let mut prev = *iv;
+    let mut out = Vec::with_capacity(data.len());
+    for chunk in data.chunks(16) {
+        let mut b = [0u8; 16];
+        b.copy_from_slice(chunk);
+        let c = b;
+        k.dec(&mut b);
+        for i in 0..16 {
+            b[i] ^= prev[i];
+        }
+        out.extend_from_slice(&b);
+        prev = c;
+    }
+    Ok(out)
+}
+
+pub fn aes_ecb_encrypt_block(key: &[u8], block: &[u8; 16]) -> Result<[u8; 16], String> {
+    let k = AesKey::new(key)?;
+    let mut b = *block;
+    k.enc(&mut b);
+    Ok(b)
+}
+
+pub fn aes_ecb_decrypt_block(key: &[u8], block: &[u8; 16]) -> Result<[u8; 16], String> {
+    let k = AesKey::new(key)?;
+    let mut b = *block;
+    k.dec(&mut b);
+    Ok(b)
+}
+
+/// §7.6.3: AES-CBC, the IV is stored as the first 16 bytes, padding of 16 - (M mod 16) bytes of that value.
+pub fn aes_pdf_encrypt(key: &[u8], iv: &[u8; 16], plain: &[u8]) -> Result<Vec<u8>, String> {
+    let padn = 16 - plain.len() % 16;
+    let mut data = plain.to_vec();
+    data.extend(std::iter::repeat(padn as u8).take(padn));
+    let mut out = iv.to_vec();
+    out.extend(aes_cbc_encrypt_nopad(key, iv, &data)?);
+    Ok(out)
+}
+
+pub fn aes_pdf_decrypt(key: &[u8], data: &[u8]) -> Result<Vec<u8>, String> {
+    if data.len() < 32 || data.len() % 16 != 0 {
+        return Err(format!("AES data of {} bytes is not IV + a positive number of blocks", data.len()));
+    }
+    let mut iv = [0u8; 16];
+    iv.copy_from_slice(&data[..16]);
+    let mut p = aes_cbc_decrypt_nopad(key, &iv, &data[16..])?;
+    let n = *p.last().unwrap() as usize;
+    if n == 0 || n > 16 || p[p.len() - n..].iter().any(|&b| b as usize != n) {
+        return Err("bad padding after AES decryption".into());
+    }
+    p.truncate(p.len() - n);
+    Ok(p)
+}
+
+// ---------------------------------------------------------------------------------------------
+// password preparation
+
+/// PDFDocEncoding (ISO 32000-1 Annex D.2) code of a character, if it has one.
+pub fn pdfdoc_code(c: char) -> Option<u8> {
+    let u = c as u32;
+    match u {
+        0x09 | 0x0A | 0x0D => Some(u as u8),
+        0x20..=0x7E => Some(u as u8),
+        0xA1..=0xAC | 0xAE..=0xFF => Some(u as u8),
+        0x02D8 => Some(0x18),
+        0x02C7 => Some(0x19),
+        0x02C6 => Some(0x1A),
+        0x02D9 => Some(0x1B),
+        0x02DD => Some(0x1C),
+        0x02DB => Some(0x1D),
+        0x02DA => Some(0x1E),
+        0x02DC => Some(0x1F),
+        0x2022 => Some(0x80),
+        0x2020 => Some(0x81),
+        0x2021 => Some(0x82),
+        0x2026 => Some(0x83),
+        0x2014 => Some(0x84),
+        0x2013 => Some(0x85),
+        0x0192 => Some(0x86),
+        0x2044 => Some(0x87),
+        0x2039 => Some(0x88),
+        0x203A => Some(0x89),
+        0x2212 => Some(0x8A),
+        0x2030 => Some(0x8B),
+        0x201E => Some(0x8C),
+        0x201C => Some(0x8D),
+        0x201D => Some(0x8E),
+        0x2018 => Some(0x8F),
+        0x2019 => Some(0x90),
+        0x201A => Some(0x91),
+        0x2122 => Some(0x92),
+        0xFB01 => Some(0x93),
+        0xFB02 => Some(0x94),
+        0x0141 => Some(0x95),
+        0x0152 => Some(0x96),
+        0x0160 => Some(0x97),
+        0x0178 => Some(0x98),
+        0x017D => Some(0x99),
+        0x0131 => Some(0x9A),
+        0x0142 => Some(0x9B),
+        0x0153 => Some(0x9C),
+        0x0161 => Some(0x9D),
+        0x017E => Some(0x9E),
+        0x20AC => Some(0xA0),
+        _ => None,
+    }
+}
+
+/// Password bytes for revisions 2-4: the PDFDocEncoding form; None if a character has no code.
+pub fn pdfdoc_bytes(pw: &str) -> Option<Vec<u8>> {
+    pw.chars().map(pdfdoc_code).collect()
+}
+
+/// True if every character of `pw` has a PDFDocEncoding code.
+pub fn pdfdoc_encodable(pw: &str) -> bool {
+    pdfdoc_bytes(pw).is_some()
+}
+
+/// Password bytes for revisions 5-6: SASLprep, UTF-8, truncated to 127 bytes (Algorithm 2.A step a).
+pub fn utf8_prep(pw: &str) -> Result<Vec<u8>, String> {
+    let p = stringprep::saslprep(pw).map_err(|e| format!("SASLprep: {}", e))?;
+    let mut b = p.as_bytes().to_vec();
+    b.truncate(127);
+    Ok(b)
+}
+
+/// Password bytes as the given revision prepares them.
+pub fn prep(r: i64, pw: &str) -> Result<Vec<u8>, String> {
+    if r <= 4 {
+        pdfdoc_bytes(pw).ok_or_else(|| "password has a character outside PDFDocEncoding".to_string())
+    } else {
+        utf8_prep(pw)
+    }
+}
+
+/// Algorithm 2 step (a): pad or truncate to exactly 32 bytes.
+pub fn pad32(pw: &[u8]) -> [u8; 32] {
+    let n = pw.len().min(32);
+    let mut out = [0u8; 32];
+    out[..n].copy_from_slice(&pw[..n]);
+    out[n..].copy_from_slice(&PAD[..32 - n]);
+    out
+}
+
+// ---------------------------------------------------------------------------------------------
+// encryption dictionary
+
+#[derive(Clone, Copy, PartialEq, Eq, Debug)]
+pub enum Method {
+    Identity,
+    Rc4,
+    AesV2,
+    AesV3,
+}
+
+/// Deviations from the standard that the *classifier* may switch on to test whether a failing case is
+/// explained by one catalogued lopdf defect. All false = the standard.
+#[derive(Clone, Copy, Default, Debug, PartialEq)]
+pub struct Quirks {
+    /// strings inside stream dictionaries are left alone
+    pub skip_stream_dict_strings: bool,
+    /// a StmF/StrF/Crypt name that is not in CF (incl. /Identity) selects RC4
+    pub missing_filter_is_rc4: bool,
+    /// CFM /Identity is read as CFM /None
+    pub cfm_identity_is_none: bool,
+}
+
+#[derive(Clone, Debug)]
+pub struct EncDict {
+    pub v: i64,
+    pub r: i64,
+    /// file key length in bits as the standard defines it for this V (40 / Length / 128 / 256)
+    pub key_bits: i64,
+    pub o: Vec<u8>,
+    pub u: Vec<u8>,
+    pub oe: Vec<u8>,
+    pub ue: Vec<u8>,
+    pub perms: Vec<u8>,
+    /// the P entry as a 32-bit two's complement number
+    pub p: i32,
+    pub encrypt_metadata: bool,
+    /// crypt filter name -> CFM name (b"None" if absent)
+    pub cf: BTreeMap<Vec<u8>, Vec<u8>>,
+    /// None = entry absent (default /Identity)
+    pub stmf: Option<Vec<u8>>,
+    pub strf: Option<Vec<u8>>,
+}
+
+fn get_str(d: &Dictionary, k: &[u8]) -> Option<Vec<u8>> {
+    match d.get(k) {
+        Ok(Object::String(s, _)) => Some(s.clone()),
+        _ => None,
+    }
+}
+
+fn get_name(d: &Dictionary, k: &[u8]) -> Option<Vec<u8>> {
+    match d.get(k) {
+        Ok(Object::Name(s)) => Some(s.clone()),
+        _ => None,
+    }
+}
+
+fn get_int(d: &Dictionary, k: &[u8]) -> Option<i64> {
+    match d.get(k) {
+        Ok(Object::Integer(i)) => Some(*i),
+        _ => None,
+    }
+}
+
+impl EncDict {
+    /// Read an encryption dictionary (Table 20 + Table 21 of ISO 32000-2).
+    pub fn parse(d: &Dictionary) -> Result<EncDict, String> {
+        match get_name(d, b"Filter") {
+            Some(f) if f == b"Standard" => {}
+            other => return Err(format!("Filter is {:?}, not /Standard", other.map(|n| String::from_utf8_lossy(&n).to_string()))),
+        }
+        let v = get_int(d, b"V").ok_or("V missing")?;
+        let r = get_int(d, b"R").ok_or("R missing")?;
+        let key_bits = match v {
+            1 => 40,
+            2 => get_int(d, b"Length").unwrap_or(40),
+            4 => 128,
+            5 => 256,
+            _ => return Err(format!("V {} is not 1, 2, 4 or 5", v)),
+        };
+        if !(2..=6).contains(&r) {
+            return Err(format!("R {} not in 2..6", r));
+        }
+        if v == 2 && (key_bits % 8 != 0 || !(40..=128).contains(&key_bits)) {
+            return Err(format!("Length {} illegal", key_bits));
+        }
+        let o = get_str(d, b"O").ok_or("O missing")?;
+        let u = get_str(d, b"U").ok_or("U missing")?;
+        if r <= 4 && (o.len() != 32 || u.len() != 32) {
+            return Err(format!("O/U must be 32 bytes for R<=4 (are {} / {})", o.len(), u.len()));
+        }
+        if r >= 5 && (o.len() < 48 || u.len() < 48) {
+            return Err(format!("O/U must be 48 bytes for R>=5 (are {} / {})", o.len(), u.len()));
+        }
+        let oe = get_str(d, b"OE").unwrap_or_default();
+        let ue = get_str(d, b"UE").unwrap_or_default();
+        let perms = get_str(d, b"Perms").unwrap_or_default();
+        if r >= 5 && (oe.len() != 32 || ue.len() != 32 || perms.len() != 16) {
+            return Err(format!("OE/UE/Perms must be 32/32/16 bytes (are {} / {} / {})", oe.len(), ue.len(), perms.len()));
+        }
+        let p64 = get_int(d, b"P").ok_or("P missing")?;
+        let p = p64 as u64 as u32 as i32;
+        let encrypt_metadata = match d.get(b"EncryptMetadata") {
+            Ok(Object::Boolean(b)) => *b,
+            _ => true,
+        };
+        let mut cf = BTreeMap::new();
+        if v >= 4 {
+            if let Ok(Object::Dictionary(cfd)) = d.get(b"CF") {
+                for (name, f) in cfd.iter() {
+                    if let Object::Dictionary(fd) = f {
+                        cf.insert(name.clone(), get_name(fd, b"CFM").unwrap_or_else(|| b"None".to_vec()));
+                    }
+                }
+            }
+        }
+        let (stmf, strf) = if v >= 4 { (get_name(d, b"StmF"), get_name(d, b"StrF")) } else { (None, None) };
+        Ok(EncDict { v, r, key_bits, o, u, oe, ue, perms, p, encrypt_metadata, cf, stmf, strf })
+    }
+
+    /// number of bytes of the file encryption key
+    pub fn n(&self) -> usize {
+        if self.r == 2 {
+            5
+        } else {
+            (self.key_bits / 8) as usize
+        }
+    }
+
+    /// §7.6.6: which method a crypt filter name selects.
+    pub fn resolve(&self, name: Option<&[u8]>, q: &Quirks) -> Result<Method, String> {
+        if self.v < 4 {
+            return Ok(Method::Rc4);
+        }
+        let name: &[u8] = name.unwrap_or(b"Identity");
+        if let Some(cfm) = self.cf.get(name) {
+            // a CF entry *named* Identity is not allowed by the standard; the predefined filter wins
+            // in a conforming reader. Such an entry is looked at only under the lookup quirk.
+            if name != b"Identity" || q.missing_filter_is_rc4 {
+                return match cfm.as_slice() {
+                    b"None" => Ok(Method::Identity),
+                    b"V2" => Ok(Method::Rc4),
+                    b"AESV2" => Ok(Method::AesV2),
+                    b"AESV3" => Ok(Method::AesV3),
+                    b"Identity" if q.cfm_identity_is_none => Ok(Method::Identity),
+                    other => Err(format!(
+                        "crypt filter /{} has CFM /{}, which is not None, V2, AESV2 or AESV3",
+                        String::from_utf8_lossy(name),
+                        String::from_utf8_lossy(other)
+                    )),
+                };
+            }
+        }
+        if name == b"Identity" {
+            if q.missing_filter_is_rc4 {
+                return Ok(Method::Rc4);
+            }
+            return Ok(Method::Identity);
+        }
+        if q.missing_filter_is_rc4 {
+            return Ok(Method::Rc4);
+        }
+        Err(format!("crypt filter /{} is not defined in CF", String::from_utf8_lossy(name)))
+    }
+}
+
+/// First element of the trailer's ID array (empty if absent).
+pub fn id0_of(trailer: &Dictionary) -> Vec<u8> {
+    match trailer.get(b"ID") {
+        Ok(Object::Array(a)) => match a.first() {
+            Some(Object::String(s, _)) => s.clone(),
+            _ => vec![],
+        },
+        _ => vec![],
+    }
+}
+
+// ---------------------------------------------------------------------------------------------
+// revisions 2-4
+
+/// Algorithm 2: file encryption key from the (prepared) user password.
+pub fn alg2_file_key(enc: &EncDict, id0: &[u8], user_pw: &[u8]) -> Vec<u8> {
+    let n = enc.n();
+    let padded = pad32(user_pw);
+    let p = (enc.p as u32).to_le_bytes();
+    let mut parts: Vec<&[u8]> = vec![&padded, &enc.o, &p, id0];
+    let ff = [0xffu8; 4];
+    if enc.r >= 4 && !enc.encrypt_metadata {
+        parts.push(&ff);
+    }
+    let mut h = md5(&parts);
+    if enc.r >= 3 {
+        for _ in 0..50 {
+            h = md5(&[&h[..n]]);
+        }
+    }
+    h[..n].to_vec()
+}
+
+/// Steps (a)-(d) of Algorithm 3: the RC4 key made from the owner password string.
+fn owner_rc4_key(r: i64, n: usize, owner_string: &[u8]) -> Vec<u8> {
+    let mut h = md5(&[&pad32(owner_string)]);
+    if r >= 3 {
+        for _ in 0..50 {
+            h = md5(&[&h]);
+        }
+    }
+    h[..n].to_vec()
+}
+
+/// Algorithm 3: the O entry. `owner_pw` empty means "no owner password": step (a) then uses the user
+/// password. `literal_empty_owner` disables that substitution (classifier only).
+pub fn alg3_o(r: i64, n: usize, owner_pw: &[u8], user_pw: &[u8], literal_empty_owner: bool) -> Vec<u8> {
+    let owner_string: &[u8] = if owner_pw.is_empty() && !literal_empty_owner { user_pw } else { owner_pw };
+    let key = owner_rc4_key(r, n, owner_string);
+    let mut out = rc4(&key, &pad32(user_pw));
+    if r >= 3 {
+        for i in 1..=19u8 {
+            let k: Vec<u8> = key.iter().map(|b| b ^ i).collect();
+            out = rc4(&k, &out);
+        }
+    }
+    out
+}
+
+/// Algorithm 4: the U entry for revision 2.
+pub fn alg4_u(file_key: &[u8]) -> Vec<u8> {
+    rc4(file_key, &PAD)
+}
+
+/// Algorithm 5: the U entry for revisions 3 and 4; `tail` is the 16 bytes of arbitrary padding.
+pub fn alg5_u(file_key: &[u8], id0: &[u8], tail: &[u8; 16]) -> Vec<u8> {
+    let h = md5(&[&PAD, id0]);
+    let mut out = rc4(file_key, &h);
+    for i in 1..=19u8 {
+        let k: Vec<u8> = file_key.iter().map(|b| b ^ i).collect();
+        out = rc4(&k, &out);
+    }
+    out.extend_from_slice(tail);
+    out
+}
+
+/// Algorithm 6: authenticate the user password; returns the file key.
+pub fn alg6_user(enc: &EncDict, id0: &[u8], pw: &[u8]) -> Option<Vec<u8>> {
+    let key = alg2_file_key(enc, id0, pw);
+    let ok = if enc.r == 2 {
+        alg4_u(&key) == enc.u
+    } else {
+        alg5_u(&key, id0, &[0; 16])[..16] == enc.u[..16]
+    };
+    if ok {
+        Some(key)
+    } else {
+        None
+    }
+}
+
+/// Algorithm 7: authenticate the owner password; returns (file key, recovered padded user password).
+pub fn alg7_owner(enc: &EncDict, id0: &[u8], pw: &[u8]) -> Option<(Vec<u8>, Vec<u8>)> {
+    let key = owner_rc4_key(enc.r, enc.n(), pw);
+    let mut user = enc.o.clone();
+    if enc.r == 2 {
+        user = rc4(&key, &user);
+    } else {
+        for i in (0..=19u8).rev() {
+            let k: Vec<u8> = key.iter().map(|b| b ^ i).collect();
+            user = rc4(&k, &user);
+        }
+    }
+    alg6_user(enc, id0, &user).map(|k| (k, user))
+}
+
+// ---------------------------------------------------------------------------------------------
+// revisions 5-6
+
+/// Algorithm 2.B (revision 6); revision 5 uses the plain SHA-256 of the input.
+pub fn hash_r56(r: i64, pw: &[u8], salt: &[u8], udata: &[u8]) -> Vec<u8> {
+    let mut k = sha256(&[pw, salt, udata]);
+    if r == 5 {
+        return k;
+    }
+    let mut round: u32 = 0;
+    loop {
+        let mut k1 = Vec::with_capacity(64 * (pw.len() + k.len() + udata.len()));
+        for _ in 0..64 {
+            k1.extend_from_slice(pw);
+            k1.extend_from_slice(&k);
+            k1.extend_from_slice(udata);
+        }
+        let mut iv = [0u8; 16];
+        iv.copy_from_slice(&k[16..32]);
+        let e = aes_cbc_encrypt_nopad(&k[..16], &iv, &k1).expect("K1 is a multiple of 16 bytes");
+        let mut first = [0u8; 16];
+        first.copy_from_slice(&e[..16]);
+        k = match u128::from_be_bytes(first) % 3 {
+            0 => Sha256::digest(&e).to_vec(),
+            1 => Sha384::digest(&e).to_vec(),
+            _ => Sha512::digest(&e).to_vec(),
+        };
+        round += 1;
+        if round >= 64 && (*e.last().unwrap() as u32) <= round - 32 {
+            break;
+        }
+    }
+    k.truncate(32);
+    k
+}
+
+/// Algorithm 8: (U, UE).
+pub fn alg8(r: i64, file_key: &[u8; 32], pw: &[u8], vsalt: &[u8; 8], ksalt: &[u8; 8]) -> (Vec<u8>, Vec<u8>) {
+    let mut u = hash_r56(r, pw, vsalt, &[]);
+    u.extend_from_slice(vsalt);
+    u.extend_from_slice(ksalt);
+    let k = hash_r56(r, pw, ksalt, &[]);
+    let ue = aes_cbc_encrypt_nopad(&k, &[0; 16], file_key).unwrap();
+    (u, ue)
+}
+
+/// Algorithm 9: (O, OE); `u` is the 48-byte U string of Algorithm 8.
+pub fn alg9(r: i64, file_key: &[u8; 32], pw: &[u8], vsalt: &[u8; 8], ksalt: &[u8; 8], u: &[u8]) -> (Vec<u8>, Vec<u8>) {
+    let mut o = hash_r56(r, pw, vsalt, &u[..48]);
+    o.extend_from_slice(vsalt);
+    o.extend_from_slice(ksalt);
+    let k = hash_r56(r, pw, ksalt, &u[..48]);
+    let oe = aes_cbc_encrypt_nopad(&k, &[0; 16], file_key).unwrap();
+    (o, oe)
+}
+
+/// Algorithm 10: the Perms entry.
+pub fn alg10(file_key: &[u8; 32], p: i32, encrypt_metadata: bool, tail: &[u8; 4]) -> Vec<u8> {
+    let mut b = [0u8; 16];
+    b[..4].copy_from_slice(&(p as u32).to_le_bytes());
+    b[4..8].copy_from_slice(&[0xff; 4]);
+    b[8] = if encrypt_metadata { b'T' } else { b'F' };
+    b[9..12].copy_from_slice(b"adb");
+    b[12..].copy_from_slice(tail);
+    aes_ecb_encrypt_block(file_key, &b).unwrap().to_vec()
+}
+
+/// Algorithm 11: is `pw` the user password?
+pub fn alg11_user(enc: &EncDict, pw: &[u8]) -> bool {
+    hash_r56(enc.r, pw, &enc.u[32..40], &[]) == enc.u[..32]
+}
+
+/// Algorithm 12: is `pw` the owner password?
+pub fn alg12_owner(enc: &EncDict, pw: &[u8]) -> bool {
+    hash_r56(enc.r, pw, &enc.o[32..40], &enc.u[..48]) == enc.o[..32]
+}
+
+/// Algorithm 13: validate Perms with the file key.
+pub fn alg13(enc: &EncDict, file_key: &[u8]) -> Result<(), String> {
+    let mut b = [0u8; 16];
+    b.copy_from_slice(&enc.perms);
+    let d = aes_ecb_decrypt_block(file_key, &b)?;
+    if &d[9..12] != b"adb" {
+        return Err("Perms: bytes 9-11 are not 'adb'".into());
+    }
+    if d[..4] != (enc.p as u32).to_le_bytes() {
+        return Err(format!("Perms: bytes 0-3 {:02x?} differ from P {:08x}", &d[..4], enc.p as u32));
+    }
+    let want = if enc.encrypt_metadata { b'T' } else { b'F' };
+    if d[8] != want {
+        return Err(format!("Perms: byte 8 is {:?}, EncryptMetadata is {}", d[8] as char, enc.encrypt_metadata));
+    }
+    Ok(())
+}
+
+/// Algorithm 2.A restricted to one role: file key if `pw` is the user password.
+pub fn alg2a_user(enc: &EncDict, pw: &[u8]) -> Option<Vec<u8>> {
+    if !alg11_user(enc, pw) {
+        return None;
+    }
+    let k = hash_r56(enc.r, pw, &enc.u[40..48], &[]);
+    aes_cbc_decrypt_nopad(&k, &[0; 16], &enc.ue).ok()
+}
+
+/// Algorithm 2.A restricted to one role: file key if `pw` is the owner password.
+pub fn alg2a_owner(enc: &EncDict, pw: &[u8]) -> Option<Vec<u8>> {
+    if !alg12_owner(enc, pw) {
+        return None;
+    }
+    let k = hash_r56(enc.r, pw, &enc.o[40..48], &enc.u[..48]);
+    aes_cbc_decrypt_nopad(&k, &[0; 16], &enc.oe).ok()
+}
+
+// ---------------------------------------------------------------------------------------------
+// opening a document
+
+#[derive(Clone, Copy, PartialEq, Eq, Debug)]
+pub enum Role {
+    User,
+    Owner,
+}
+
+/// Authenticate a (prepared) password in one role and return the file encryption key.
+/// For revisions 5-6 the Perms entry is validated too (Algorithm 2.A step f).
+pub fn derive(enc: &EncDict, id0: &[u8], pw: &[u8], role: Role) -> Result<Vec<u8>, String> {
+    if enc.r <= 4 {
+        match role {
+            Role::User => alg6_user(enc, id0, pw).ok_or_else(|| "user password not accepted (Algorithm 6)".to_string()),
+            Role::Owner => alg7_owner(enc, id0, pw).map(|x| x.0).ok_or_else(|| "owner password not accepted (Algorithm 7)".to_string()),
+        }
+    } else {
+        let mut p = pw.to_vec();
+        p.truncate(127);
+        let key = match role {
+            Role::User => alg2a_user(enc, &p).ok_or_else(|| "user password not accepted (Algorithm 11)".to_string())?,
+            Role::Owner => alg2a_owner(enc, &p).ok_or_else(|| "owner password not accepted (Algorithm 12)".to_string())?,
+        };
+        alg13(enc, &key)?;
+        Ok(key)
+    }
+}
+
+/// Algorithm 1 / 1.A: key for one object under one method.
+pub fn object_key(file_key: &[u8], id: ObjectId, m: Method) -> Vec<u8> {
+    match m {
+        Method::AesV3 | Method::Identity => file_key.to_vec(),
+        Method::Rc4 | Method::AesV2 => {
+            let num = id.0.to_le_bytes();
+            let gen = id.1.to_le_bytes();
+            let mut parts: Vec<&[u8]> = vec![file_key, &num[..3], &gen[..2]];
+            if m == Method::AesV2 {
+                parts.push(b"sAlT");
+            }
+            let h = md5(&parts);
+            h[..(file_key.len() + 5).min(16)].to_vec()
+        }
+    }
+}
+
+// ---------------------------------------------------------------------------------------------
+// applying encryption to a document's objects
+
+/// Source of initialisation vectors for the encrypting direction (no RNG: a pattern plus a counter).
+#[derive(Clone, Debug)]
+pub struct IvSource {
+    pub pattern: [u8; 16],
+    pub counter: u16,
+}
+
+impl IvSource {
+    pub fn new(pattern: [u8; 16]) -> IvSource {
+        IvSource { pattern, counter: 0 }
+    }
+    fn next(&mut self) -> [u8; 16] {
+        let mut iv = self.pattern;
+        let c = self.counter.to_be_bytes();
+        iv[14] ^= c[0];
+        iv[15] ^= c[1];
+        self.counter = self.counter.wrapping_add(1);
+        iv
+    }
+}
+
+pub enum Direction {
+    Encrypt(IvSource),
+    Decrypt,
+}
+
+struct Ctx<'a> {
+    enc: &'a EncDict,
+    key: &'a [u8],
+    q: Quirks,
+    dir: Direction,
+    /// (path, message) for every string/stream that could not be processed
+    errors: Vec<(String, String)>,
+    strings: u64,
+    streams: u64,
+}
+
+impl Ctx<'_> {
+    fn crypt(&mut self, m: Method, id: ObjectId, data: &[u8]) -> Result<Vec<u8>, String> {
+        let k = object_key(self.key, id, m);
+        match m {
+            Method::Identity => Ok(data.to_vec()),
+            Method::Rc4 => Ok(rc4(&k, data)),
+            Method::AesV2 | Method::AesV3 => {
+                let want = if m == Method::AesV2 { 16 } else { 32 };
+                if k.len() != want {
+                    return Err(format!("object key of {} bytes for {:?}", k.len(), m));
+                }
+                match &mut self.dir {
+                    Direction::Encrypt(ivs) => {
+                        let iv = ivs.next();
+                        aes_pdf_encrypt(&k, &iv, data)
+                    }
+                    Direction::Decrypt => aes_pdf_decrypt(&k, data),
+                }
+            }
+        }
+    }
+
+    fn walk(&mut self, id: ObjectId, o: &mut Object, path: &str, in_stream_dict: bool) {
+        match o {
+            Object::String(s, _) => {
+                if in_stream_dict && self.q.skip_stream_dict_strings {
+                    return;
+                }
+                let strf = self.enc.strf.clone();
+                match self.enc.resolve(strf.as_deref(), &self.q).and_then(|m| self.crypt(m, id, s)) {
+                    Ok(v) => {
+                        *s = v;
+                        self.strings += 1;
+                    }
+                    Err(e) => self.errors.push((path.to_string(), e)),
+                }
+            }
+            Object::Array(a) => {
+                for (i, x) in a.iter_mut().enumerate() {
+                    self.walk(id, x, &format!("{}[{}]", path, i), in_stream_dict);
+                }
+            }
+            Object::Dictionary(d) => {
+                for (k, x) in d.iter_mut() {
+                    self.walk(id, x, &format!("{}/{}", path, String::from_utf8_lossy(k)), in_stream_dict);
+                }
+            }
+            Object::Stream(st) => {
+                // §7.6.2: cross-reference streams are not encrypted, nor are the strings in their dictionaries
+                if matches!(st.dict.get(b"Type"), Ok(Object::Name(n)) if n == b"XRef") {
+                    return;
+                }
+                let method = self.stream_method(&st.dict);
+                for (k, x) in st.dict.iter_mut() {
+                    self.walk(id, x, &format!("{}.dict/{}", path, String::from_utf8_lossy(k)), true);
+                }
+                match method.and_then(|m| self.crypt(m, id, &st.content)) {
+                    Ok(v) => {
+                        st.content = v;
+                        if matches!(st.dict.get(b"Length"), Ok(Object::Integer(_)) | Err(_)) {
+                            st.dict.set("Length", st.content.len() as i64);
+                        }
+                        self.streams += 1;
+                    }
+                    Err(e) => self.errors.push((format!("{}.body", path), e)),
+                }
+            }
+            _ => {}
+        }
+    }
+
+    /// Which method applies to the body of a stream with this dictionary.
+    fn stream_method(&self, d: &Dictionary) -> Result<Method, String> {
+        if self.enc.v >= 4 {
+            // a Crypt filter in the stream's own filter chain overrides StmF; its Name defaults to Identity
+            let filters: Vec<Vec<u8>> = match d.get(b"Filter") {
+                Ok(Object::Name(n)) => vec![n.clone()],
+                Ok(Object::Array(a)) => a.iter().filter_map(|x| if let Object::Name(n) = x { Some(n.clone()) } else { None }).collect(),
+                _ => vec![],
+            };
+            if let Some(pos) = filters.iter().position(|f| f == b"Crypt") {
+                let parms: Option<&Dictionary> = match d.get(b"DecodeParms") {
+                    Ok(Object::Dictionary(p)) if filters.len() == 1 => Some(p),
+                    Ok(Object::Array(a)) => match a.get(pos) {
+                        Some(Object::Dictionary(p)) => Some(p),
+                        _ => None,
+                    },
+                    Ok(Object::Dictionary(p)) => Some(p),
+                    _ => None,
+                };
+                let name = parms.and_then(|p| get_name(p, b"Name"));
+                return self.enc.resolve(name.as_deref(), &self.q);
+            }
+            if !self.enc.encrypt_metadata && matches!(d.get(b"Type"), Ok(Object::Name(n)) if n == b"Metadata") {
+                return Ok(Method::Identity);
+            }
+        }
+        self.enc.resolve(self.enc.stmf.as_deref(), &self.q)
+    }
+}
+
+pub struct ApplyReport {
+    pub errors: Vec<(String, String)>,
+    pub strings: u64,
+    pub streams: u64,
+}
+
+/// Encrypt or decrypt every string and stream of `objects` in place (§7.6.2), skipping the
+/// encryption dictionary object `enc_id`. Objects that cannot be processed are left unchanged and
+/// listed in the report.
+pub fn apply(
+    objects: &mut BTreeMap<ObjectId, Object>, enc_id: Option<ObjectId>, enc: &EncDict, file_key: &[u8], dir: Direction, q: Quirks,
+) -> ApplyReport {
+    let mut ctx = Ctx { enc, key: file_key, q, dir, errors: vec![], strings: 0, streams: 0 };
+    for (id, o) in objects.iter_mut() {
+        if Some(*id) == enc_id {
+            continue;
+        }
+        ctx.walk(*id, o, &format!("obj({} {})", id.0, id.1), false);
+    }
+    ApplyReport { errors: ctx.errors, strings: ctx.strings, streams: ctx.streams }
+}
+
+// ---------------------------------------------------------------------------------------------
+// making an encryption dictionary (reference as the encrypting side)
+
+#[derive(Clone, Debug)]
+pub struct MakeParams {
+    pub v: i64,
+    pub r: i64,
+    /// value of Length (V2 only); also written for V4 as 128 when `write_length`
+    pub key_bits: i64,
+    pub write_length: bool,
+    pub p: i32,
+    pub encrypt_metadata: bool,
+    /// None = do not write the entry (default true)
+    pub write_encrypt_metadata: bool,
+    /// crypt filters: name -> CFM name
+    pub cf: Vec<(Vec<u8>, Vec<u8>)>,
+    pub stmf: Option<Vec<u8>>,
+    pub strf: Option<Vec<u8>>,
+    /// revisions 5-6: the file encryption key (chosen by the writer)
+    pub file_key: [u8; 32],
+    /// arbitrary bytes the algorithms leave to the writer, taken from a menu
+    pub u_tail: [u8; 16],
+    pub salts: [[u8; 8]; 4],
+    pub perms_tail: [u8; 4],
+}
+
+/// Algorithms 3, 4, 5 (R 2-4) or 8, 9, 10 (R 5-6): build the encryption dictionary for prepared
+/// passwords; returns (dictionary, file encryption key).
+pub fn make(mp: &MakeParams, id0: &[u8], user_pw: &[u8], owner_pw: &[u8]) -> (Dictionary, Vec<u8>) {
+    let mut d = Dictionary::new();
+    d.set("Filter", Object::Name(b"Standard".to_vec()));
+    d.set("V", Object::Integer(mp.v));
+    d.set("R", Object::Integer(mp.r));
+    if mp.write_length {
+        d.set("Length", Object::Integer(mp.key_bits));
+    }
+    d.set("P", Object::Integer(mp.p as i64));
+    if mp.v >= 4 {
+        let mut cf = Dictionary::new();
+        for (name, cfm) in &mp.cf {
+            let mut f = Dictionary::new();
+            f.set("Type", Object::Name(b"CryptFilter".to_vec()));
+            f.set("CFM", Object::Name(cfm.clone()));
+            if mp.v == 4 {
+                f.set("Length", Object::Integer(16));
+            } else {
+                f.set("Length", Object::Integer(32));
+            }
+            f.set("AuthEvent", Object::Name(b"DocOpen".to_vec()));
+            cf.set(name.clone(), Object::Dictionary(f));
+        }
+        d.set("CF", Object::Dictionary(cf));
+        if let Some(n) = &mp.stmf {
+            d.set("StmF", Object::Name(n.clone()));
+        }
+        if let Some(n) = &mp.strf {
+            d.set("StrF", Object::Name(n.clone()));
+        }
+        if mp.write_encrypt_metadata {
+            d.set("EncryptMetadata", Object::Boolean(mp.encrypt_metadata));
+        }
+    }
+    let hexs = |b: Vec<u8>| Object::String(b, lopdf::StringFormat::Hexadecimal);
+    if mp.r <= 4 {
+        let key_bits = match mp.v {
+            1 => 40,
+            2 => mp.key_bits,
+            _ => 128,
+        };
+        let n = if mp.r == 2 { 5 } else { (key_bits / 8) as usize };
+        let o = alg3_o(mp.r, n, owner_pw, user_pw, false);
+        let enc = EncDict {
+            v: mp.v,
+            r: mp.r,
+            key_bits,
+            o: o.clone(),
+            u: vec![],
+            oe: vec![],
+            ue: vec![],
+            perms: vec![],
+            p: mp.p,
+            encrypt_metadata: if mp.v >= 4 { mp.encrypt_metadata } else { true },
+            cf: BTreeMap::new(),
+            stmf: None,
+            strf: None,
+        };
+        let key = alg2_file_key(&enc, id0, user_pw);
+        let u = if mp.r == 2 { alg4_u(&key) } else { alg5_u(&key, id0, &mp.u_tail) };
+        d.set("O", hexs(o));
+        d.set("U", hexs(u));
+        (d, key)
+    } else {
+        let mut up = user_pw.to_vec();
+        up.truncate(127);
+        let mut op = owner_pw.to_vec();
+        op.truncate(127);
+        let (u, ue) = alg8(mp.r, &mp.file_key, &up, &mp.salts[0], &mp.salts[1]);
+        let (o, oe) = alg9(mp.r, &mp.file_key, &op, &mp.salts[2], &mp.salts[3], &u);
+        let perms = alg10(&mp.file_key, mp.p, mp.encrypt_metadata, &mp.perms_tail);
+        d.set("O", hexs(o));
+        d.set("U", hexs(u));
+        d.set("OE", hexs(oe));
+        d.set("UE", hexs(ue));
+        d.set("Perms", hexs(perms));
+        (d, mp.file_key.to_vec())
+    }
+}
+
+// ---------------------------------------------------------------------------------------------
+// self-test
+
+fn unhex(s: &str) -> Vec<u8> {
+    let s: String = s.chars().filter(|c| !c.is_whitespace()).collect();
+    (0..s.len() / 2).map(|i| u8::from_str_radix(&s[2 * i..2 * i + 2], 16).unwrap()).collect()
+}
+
+fn expect(what: &str, got: &[u8], want_hex: &str) -> Result<(), String> {
+    if got == unhex(want_hex).as_slice() {
+        Ok(())
+    } else {
+        Err(format!("self-test {}: got {} want {}", what, crate::objjson::hex(got), want_hex))
+    }
+}
+
+/// Known-answer tests of the primitives (FIPS 180-4, FIPS 197, SP 800-38A, RFC 1321, RFC 6229), of
+/// the password preparation, and a round trip of the handler on itself for every revision.
+/// Returns the number of checks made.
+pub fn selftest() -> Result<u64, String> {
+    let mut n = 0u64;
+    // RFC 1321
+    expect("md5('')", &md5(&[b""]), "d41d8cd98f00b204e9800998ecf8427e")?;
+    expect("md5('abc')", &md5(&[b"a", b"bc"]), "900150983cd24fb0d6963f7d28e17f72")?;
+    // FIPS 180-4 examples
+    expect("sha256('abc')", &sha256(&[b"abc"]), "ba7816bf8f01cfea414140de5dae2223b00361a396177a9cb410ff61f20015ad")?;
+    expect(
+        "sha384('abc')",
+        &Sha384::digest(b"abc"),
+        "cb00753f45a35e8bb5a03d699ac65007272c32ab0eded1631a8b605a43ff5bed8086072ba1e7cc2358baeca134c825a7",
+    )?;
+    expect(
+        "sha512('abc')",
+        &Sha512::digest(b"abc"),
+        "ddaf35a193617abacc417349ae20413112e6fa4e89a97ea20a9eeee64b55d39a2192992a274fc1a836ba3c23a3feebbd454d4423643ce80e2a9ac94fa54ca49f",
+    )?;
+    n += 5;
+    // FIPS 197 appendix C
+    let pt: [u8; 16] = unhex("00112233445566778899aabbccddeeff").try_into().unwrap();
+    let k128 = unhex("000102030405060708090a0b0c0d0e0f");
+    let k256 = unhex("000102030405060708090a0b0c0d0e0f101112131415161718191a1b1c1d1e1f");
+    expect("aes128", &aes_ecb_encrypt_block(&k128, &pt)?, "69c4e0d86a7b0430d8cdb78070b4c55a")?;
+    expect("aes256", &aes_ecb_encrypt_block(&k256, &pt)?, "8ea2b7ca516745bfeafc49904b496089")?;
+    let ct: [u8; 16] = unhex("8ea2b7ca516745bfeafc49904b496089").try_into().unwrap();
+    expect("aes256 inverse", &aes_ecb_decrypt_block(&k256, &ct)?, "00112233445566778899aabbccddeeff")?;
+    // SP 800-38A F.2.1 / F.2.5 (CBC)
+    let iv: [u8; 16] = k128.clone().try_into().unwrap();
+    let p2 = unhex("6bc1bee22e409f96e93d7e117393172aae2d8a571e03ac9c9eb76fac45af8e51");
+    let c = aes_cbc_encrypt_nopad(&unhex("2b7e151628aed2a6abf7158809cf4f3c"), &iv, &p2)?;
+    expect("cbc-aes128", &c, "7649abac8119b246cee98e9b12e9197d5086cb9b507219ee95db113a917678b2")?;
+    expect("cbc-aes128 inverse", &aes_cbc_decrypt_nopad(&unhex("2b7e151628aed2a6abf7158809cf4f3c"), &iv, &c)?, &crate::objjson::hex(&p2))?;
+    let k = unhex("603deb1015ca71be2b73aef0857d77811f352c073b6108d72d9810a30914dff4");
+    let c = aes_cbc_encrypt_nopad(&k, &iv, &p2)?;
+    expect("cbc-aes256", &c, "f58c4c04d6e5f1ba779eabfb5f7bfbd69cfc4e967edb808d679f777bc6702c7d")?;
+    n += 6;
+    // RFC 6229: key stream = RC4 of zeros
+    let zeros = vec![0u8; 272];
+    let ks = rc4(&unhex("0102030405"), &zeros);
+    expect("rc4-40 @0", &ks[..16], "b2396305f03dc027ccc3524a0a1118a8")?;
+    expect("rc4-40 @16", &ks[16..32], "6982944f18fc82d589c403a47a0d0919")?;
+    expect("rc4-40 @240", &ks[240..256], "28cb1132c96ce286421dcaadb8b69eae")?;
+    expect("rc4-40 @256", &ks[256..272], "1cfcf62b03eddb641d77dfcf7f8d8c93")?;
+    let ks = rc4(&unhex("01020304050607"), &zeros);
+    expect("rc4-56 @0", &ks[..16], "293f02d47f37c9b633f2af5285feb46b")?;
+    let ks = rc4(&unhex("0102030405060708"), &zeros);
+    expect("rc4-64 @0", &ks[..16], "97ab8a1bf0afb96132f2f67258da15a8")?;
+    let ks = rc4(&unhex("0102030405060708090a"), &zeros);
+    expect("rc4-80 @0", &ks[..16], "ede3b04643e586cc907dc21851709902")?;
+    let ks = rc4(&unhex("0102030405060708090a0b0c0d0e0f10"), &zeros);
+    expect("rc4-128 @0", &ks[..16], "9ac7cc9a609d1ef7b2932899cde41b97")?;
+    expect("rc4-128 @16", &ks[16..32], "5248c4959014126a6e8a84f11d1a9e1c")?;
+    let ks = rc4(&unhex("833222772a"), &zeros);
+    expect("rc4-40b @0", &ks[..16], "80ad97bdc973df8a2e879e92a497efda")?;
+    n += 10;
+    // password preparation
+    if pdfdoc_bytes("p\u{e4}ss\u{20ac}\u{2022}") != Some(vec![b'p', 0xe4, b's', b's', 0xa0, 0x80]) {
+        return Err("self-test pdfdoc".into());
+    }
+    if pdfdoc_bytes("\u{43f}").is_some() || pdfdoc_bytes("\u{ad}").is_some() {
+        return Err("self-test pdfdoc (unencodable)".into());
+    }
+    if utf8_prep("\u{fb01}x\u{ad}pw\u{a0}1").ok() != Some(b"fixpw 1".to_vec()) {
+        return Err("self-test saslprep".into());
+    }
+    if pad32(b"") != PAD || pad32(&[b'a'; 40])[..] != [b'a'; 32][..] || pad32(b"ab")[..4] != [b'a', b'b', 0x28, 0xBF] {
+        return Err("self-test pad32".into());
+    }
+    n += 4;
+    // PKCS#5 and IV framing
+    for len in [0usize, 1, 15, 16, 17, 31, 32, 33] {
+        let plain: Vec<u8> = (0..len).map(|i| (i * 7 + 1) as u8).collect();
+        let c = aes_pdf_encrypt(&k128, &[0xA5; 16], &plain)?;
+        if c.len() != 16 + (len / 16 + 1) * 16 || c[..16] != [0xA5; 16] || aes_pdf_decrypt(&k128, &c)? != plain {
+            return Err(format!("self-test AES framing, length {}", len));
+        }
+        n += 1;
+    }
+    // handler round trip on itself
+    let id0 = b"0123456789abcdef".to_vec();
+    let mut objects: BTreeMap<ObjectId, Object> = BTreeMap::new();
+    let mut d = Dictionary::new();
+    d.set("S", Object::string_literal("a string of more than sixteen bytes"));
+    d.set("A", Object::Array(vec![Object::string_literal(""), Object::Integer(3)]));
+    objects.insert((1, 0), Object::Dictionary(d.clone()));
+    objects.insert((70000, 3), Object::Stream(lopdf::Stream::new(d, (0u8..=255).collect())));
+    for (v, r, bits, cfm) in [
+        (1, 2, 40, "V2"),
+        (2, 3, 40, "V2"),
+        (2, 3, 96, "V2"),
+        (2, 3, 128, "V2"),
+        (4, 4, 128, "V2"),
+        (4, 4, 128, "AESV2"),
+        (5, 5, 256, "AESV3"),
+        (5, 6, 256, "AESV3"),
+    ] {
+        for (up, op) in [(&b""[..], &b""[..]), (b"user", b"owner"), (b"user", b""), (b"", b"owner")] {
+            let mp = MakeParams {
+                v,
+                r,
+                key_bits: bits,
+                write_length: v >= 2,
+                p: -3904,
+                encrypt_metadata: true,
+                write_encrypt_metadata: true,
+                cf: vec![(b"StdCF".to_vec(), cfm.as_bytes().to_vec())],
+                stmf: Some(b"StdCF".to_vec()),
+                strf: Some(b"StdCF".to_vec()),
+                file_key: [7; 32],
+                u_tail: [0; 16],
+                salts: [[1; 8], [2; 8], [3; 8], [4; 8]],
+                perms_tail: [9; 4],
+            };
+            let (dict, key) = make(&mp, &id0, up, op);
+            let enc = EncDict::parse(&dict)?;
+            let ku = derive(&enc, &id0, up, Role::User)?;
+            // an absent owner password means the user password opens the document as owner (R<=4)
+            let owner_string = if op.is_empty() && r <= 4 { up } else { op };
+            let ko = derive(&enc, &id0, owner_string, Role::Owner)?;
+            if ku != key || ko != key {
+                return Err(format!("self-test V{} R{}: keys differ", v, r));
+            }
+            if derive(&enc, &id0, b"neither", Role::User).is_ok() || derive(&enc, &id0, b"neither", Role::Owner).is_ok() {
+                return Err(format!("self-test V{} R{}: wrong password accepted", v, r));
+            }
+            let mut o2 = objects.clone();
+            let rep = apply(&mut o2, None, &enc, &key, Direction::Encrypt(IvSource::new([0x11; 16])), Quirks::default());
+            if !rep.errors.is_empty() || o2 == objects {
+                return Err(format!("self-test V{} R{}: encrypt {:?}", v, r, rep.errors));
+            }
+            let rep = apply(&mut o2, None, &enc, &ku, Direction::Decrypt, Quirks::default());
+            if !rep.errors.is_empty() || o2 != objects {
+                return Err(format!("self-test V{} R{}: round trip {:?}", v, r, rep.errors));
+            }
+            n += 1;
+        }
+    }
+    Ok(n)
+}
